@@ -185,6 +185,15 @@ def correspondence_plans(ctx, P: C.Part, n_cfg: int) -> None:
                         break
                 if gbad is None and gn != rp["nf"]:
                     gbad = m
+                if gbad is None and sched == "ltf":
+                    # the GENERATED start positions (per-bin body of ltf_plan's second loop) against the real plan's D, every bin
+                    for j in range(m):
+                        gd = ctx.driver.ask(f"starts gen {cfg['N']} {rp['L'][j]} {rp['K'][j]}")
+                        if [int(t) for t in gd.split()] != rp["D"][j]:
+                            P.disagreements.append({"op": "starts gen", "sched": sched, "cfg": cfg, "bin": j, "L": rp["L"][j], "K": rp["K"][j],
+                                                    "generated_head": gd.split()[:6], "impl_head": rp["D"][j][:6]})
+                            break
+                    P.hit("genstarts-bins", m)
                 if gbad is not None:
                     if unstable(sched, cfg, rp, gbad):
                         P.unstable += 1
